@@ -1378,6 +1378,17 @@ class TestCaseInfo:
     error: bool = None
 
 
+# Characters that must not occur in an XML 1.0 document, not even as
+# character references.
+_illegal_xml_chars = re.compile(
+    '[\x00-\x08\x0b\x0c\x0e-\x1f\ud800-\udfff\ufffe\uffff]')
+
+
+def xml_safe(text):
+    """Replace the characters of *text* that XML 1.0 does not allow."""
+    return _illegal_xml_chars.sub('\N{REPLACEMENT CHARACTER}', text)
+
+
 def get_test_class_name(test):
     """Compute the test class name from the test object."""
     return f'{test.__module__}.{test.__class__.__name__}'
@@ -1551,7 +1562,7 @@ class XMLOutputFormattingWrapper:
             testSuiteNode.set('errors', str(suite.errors))
             testSuiteNode.set('failures', str(suite.failures))
             testSuiteNode.set('hostname', hostname)
-            testSuiteNode.set('name', name)
+            testSuiteNode.set('name', xml_safe(name))
             testSuiteNode.set('time', str(suite.time))
             testSuiteNode.set('timestamp', timestamp)
 
@@ -1569,8 +1580,9 @@ class XMLOutputFormattingWrapper:
                 testCaseNode = ElementTree.Element('testcase')
                 testSuiteNode.append(testCaseNode)
 
-                testCaseNode.set('classname', testCase.testClassName)
-                testCaseNode.set('name', testCase.testName)
+                testCaseNode.set(
+                    'classname', xml_safe(testCase.testClassName))
+                testCaseNode.set('name', xml_safe(testCase.testName))
                 testCaseNode.set('time', str(testCase.time))
 
                 if testCase.error:
@@ -1584,10 +1596,11 @@ class XMLOutputFormattingWrapper:
                     finally:  # Avoids a memory leak
                         del tb
 
-                    errorNode.set('message', errorMessage.split('\n')[0])
-                    errorNode.set('type', str(excType))
+                    errorNode.set(
+                        'message', xml_safe(errorMessage.split('\n')[0]))
+                    errorNode.set('type', xml_safe(str(excType)))
                     text = (errorMessage + '\n\n' + stackTrace)
-                    errorNode.text = text
+                    errorNode.text = xml_safe(text)
 
                 if testCase.failure:
 
@@ -1605,10 +1618,11 @@ class XMLOutputFormattingWrapper:
                     finally:  # Avoids a memory leak
                         del tb
 
-                    failureNode.set('message', errorMessage.split('\n')[0])
-                    failureNode.set('type', str(excType))
+                    failureNode.set(
+                        'message', xml_safe(errorMessage.split('\n')[0]))
+                    failureNode.set('type', xml_safe(str(excType)))
                     text = f'{errorMessage}\n\n{stackTrace}'
-                    failureNode.text = text
+                    failureNode.text = xml_safe(text)
 
             # We don't have a good way to capture these yet, so they are empty:
             systemOutNode = ElementTree.Element('system-out')
